@@ -5,7 +5,7 @@ from vlib.common import hexs
 from vlib.decsuite import D, parse_tok, cls_kind
 
 THEOREMS = ["C01_decode_total", "C01_history_total", "C01_macroblock_progress", "C01_kernels_safe"]
-BRIDGES = ["BridgeTables", "BridgePPrologue", "BridgePGather"]
+BRIDGES = ["BridgeTables", "BridgePPrologue", "BridgePGather", "BridgePLoop", "BridgePNextLoop", "BridgePNext"]
 
 SIZES = [(16, 16), (32, 16), (16, 32), (17, 9), (1, 1), (33, 18), (48, 32), (8, 40), (64, 16)]
 
